@@ -101,6 +101,10 @@ def concretize_call(case, variant):
     if case["glob"]:
         for i in range(1, len(sig) + 1):
             data[dvars[i - 1]] = f"G{i}"
+    if variant % 2:
+        # a same-named GLOBAL for every parameter: a parameter is always bound (argument, default or undefined) and must shadow it
+        for p in sig:
+            data.setdefault(p["name"], "GLOBAL" + p["name"])
     templates = {}
     parts, calls = [], []
     for st in case["prog"]:
